@@ -7,5 +7,7 @@ for d in sorted(glob.glob(os.path.join(src, prefix + 'C*-*'))):
     pid, i = os.path.basename(d)[len(prefix):].split('-')
     o = os.path.join(dst, pid); os.makedirs(o, exist_ok=True)
     shutil.copy(os.path.join(d, 'patch.diff'), os.path.join(o, f'patch{i}.diff'))
+    if os.path.exists(os.path.join(d, 'patch_rebased.diff')):
+        shutil.copy(os.path.join(d, 'patch_rebased.diff'), os.path.join(o, f'patch{i}_rebased.diff'))
     shutil.copy(os.path.join(d, 'demo.py'), os.path.join(o, f'demo{i}.py'))
     shutil.copy(os.path.join(d, 'meta.json'), os.path.join(o, f'meta{i}.json'))
